@@ -1014,6 +1014,74 @@ def b_validation_utils(S):
     return "\n".join(out)
 
 
+def b_stacking(S):
+    """`segment_within_buffer` (the alongside flavour of STACKED TRACES), `segmentize_linestring`, `linestring_segment` and `within_bounds`: empty
+    neighbour set, overlap shortcut, buffer of radius t·m·b, crop of the neighbours to the buffer, the minimum cropped length, cutting into
+    detection-length segments from the start of every cropped part, bounds test, length test (longer than, or `isclose` to, the
+    detection length) and containment in the buffer. GEOS operations, `isclose` and lengths are parameters."""
+    src = S[TVU]
+    out = []
+    gsrc = S[GENERAL]
+    out.append(translate_function(
+        gsrc, "within_bounds", "within_bounds", {"x": "Rat", "y": "Rat", "min_x": "Rat", "min_y": "Rat", "max_x": "Rat", "max_y": "Rat"}, "Bool", {}, types={}, default_num="Rat"))
+    C = {"linestring.interpolate(dist).coords[0]": "(interp linestring dist)", "linestring.interpolate(dist + threshold_length).coords[0]": "(interp linestring (dist + threshold_length))"}
+    T = {"linestring.interpolate(dist).coords[0]": "Rat × Rat", "linestring.interpolate(dist + threshold_length).coords[0]": "Rat × Rat", "coord_1": "Rat × Rat", "coord_2": "Rat × Rat"}
+    out.append(translate_function(
+        src, "linestring_segment", "linestring_segment", {"linestring": "L", "dist": "Rat", "threshold_length": "Rat"}, "(Rat × Rat) × (Rat × Rat)", C, types=T,
+        extra_params=[("{L}", "Type"), ("interp", "L → Rat → Rat × Rat")], slice_from="coord_1 =", default_num="Rat"))
+    C = {"np.arange(0.0, linestring.length, threshold_length)": "(pyArange 0 (slen linestring) threshold_length)",
+         "linestring_segment(linestring, dist, threshold_length)": "(linestring_segment interp linestring dist threshold_length)"}
+    T = {"np.arange(0.0, linestring.length, threshold_length)": "List Rat", "segments": "List ((Rat × Rat) × (Rat × Rat))", "dist": "Rat",
+         "linestring_segment(linestring, dist, threshold_length)": "(Rat × Rat) × (Rat × Rat)"}
+    out.append(translate_function(
+        src, "segmentize_linestring", "segmentize_linestring", {"linestring": "L", "threshold_length": "Rat"}, "List ((Rat × Rat) × (Rat × Rat))", C, types=T,
+        extra_params=[("{L}", "Type"), ("interp", "L → Rat → Rat × Rat"), ("slen", "L → Rat")], slice_from="segments: List", default_num="Rat"))
+    wb = "within_bounds(x=start[0], y=start[1], min_x=min_x, min_y=min_y, max_x=max_x, max_y=max_y) and within_bounds(x=end[0], y=end[1], min_x=min_x, min_y=min_y, max_x=max_x, max_y=max_y)"
+    C = {
+        "multilinestring.is_empty": "(mls_empty multilinestring)",
+        "linestring.overlaps(multilinestring)": "(overlaps linestring multilinestring)",
+        "isinstance(linestring.intersection(multilinestring), (Point, MultiPoint))": "(inter_is_points linestring multilinestring)",
+        "safe_buffer(linestring, snap_threshold * snap_threshold_error_multiplier * stacked_detector_buffer_multiplier)":
+            "(buffer_ linestring (snap_threshold * snap_threshold_error_multiplier * stacked_detector_buffer_multiplier))",
+        "geom_bounds(buffered_linestring)": "(bounds_of buffered_linestring)",
+        "buffered_linestring.intersects(multilinestring)": "(intersects buffered_linestring multilinestring)",
+        "buffered_linestring.intersection(multilinestring)": "(crop_ buffered_linestring multilinestring)",
+        "cropped_mls.is_empty": "(List.isEmpty cropped_mls)",
+        "isinstance(cropped_mls, LineString)": "(decide (List.length cropped_mls = 1))",
+        "cropped_mls.length": "(List.sum (List.map slen cropped_mls))",
+        "isinstance(cropped_mls, (MultiLineString, LineString))": "(crop_is_lines buffered_linestring multilinestring)",
+        "list(cropped_mls.geoms) if isinstance(cropped_mls, MultiLineString) else [cropped_mls]": "cropped_mls",
+        "segmentize_linestring(ls, snap_threshold * overlap_detection_multiplier)": "(segmentize_linestring interp slen ls (snap_threshold * overlap_detection_multiplier))",
+        wb: "((within_bounds start.1 start.2 min_x min_y max_x max_y) && (within_bounds end_.1 end_.2 min_x min_y max_x max_y))",
+        "LineString([start, end])": "(start, end_)",
+        "ls.length > detection_length or np.isclose(ls.length, detection_length)": "((decide (seg_len start end_ > detection_length)) || (isclose (seg_len start end_) detection_length))",
+        "ls.within(buffered_linestring)": "(seg_within start end_ buffered_linestring)",
+    }
+    SEG = "(Rat × Rat) × (Rat × Rat)"
+    T = {k: "Bool" for k in ["multilinestring.is_empty", "linestring.overlaps(multilinestring)", "isinstance(linestring.intersection(multilinestring), (Point, MultiPoint))",
+                             "buffered_linestring.intersects(multilinestring)", "cropped_mls.is_empty", "isinstance(cropped_mls, LineString)",
+                             "isinstance(cropped_mls, (MultiLineString, LineString))", wb, "ls.length > detection_length or np.isclose(ls.length, detection_length)",
+                             "ls.within(buffered_linestring)"]}
+    T.update({"safe_buffer(linestring, snap_threshold * snap_threshold_error_multiplier * stacked_detector_buffer_multiplier)": "B", "buffered_linestring": "B",
+              "geom_bounds(buffered_linestring)": "Rat × Rat × Rat × Rat", "min_x": "Rat", "min_y": "Rat", "max_x": "Rat", "max_y": "Rat",
+              "buffered_linestring.intersection(multilinestring)": "List L", "cropped_mls": "List L", "cropped_mls.length": "Rat",
+              "list(cropped_mls.geoms) if isinstance(cropped_mls, MultiLineString) else [cropped_mls]": "List L", "mls_geoms": "List L", "all_segments": f"List ({SEG})",
+              "segmentize_linestring(ls, snap_threshold * overlap_detection_multiplier)": f"List ({SEG})", "LineString([start, end])": SEG, "detection_length": "Rat",
+              "start": "Rat × Rat", "end": "Rat × Rat"})
+    src_b = standalone(src, "segment_within_buffer", [(r"\n    ls: LineString\n", "\n"), (r"all_segments: List\[Tuple\[Tuple\[float, float\], Tuple\[float, float\]\]\] = \[\]", "all_segments = []"),
+                                                        (r"mls_geoms: List\[LineString\] = ", "mls_geoms = "), (r"            ls = LineString\(\[start, end\]\)\n", "")])
+    out.append(translate_function(
+        src_b, "segment_within_buffer", "segment_within_buffer",
+        {"linestring": "L", "multilinestring": "M", "snap_threshold": "Rat", "snap_threshold_error_multiplier": "Rat", "overlap_detection_multiplier": "Rat",
+         "stacked_detector_buffer_multiplier": "Rat"}, "Bool", C, types=T,
+        extra_params=[("{L}", "Type"), ("{M}", "Type"), ("{B}", "Type"), ("mls_empty", "M → Bool"), ("overlaps", "L → M → Bool"), ("inter_is_points", "L → M → Bool"), ("buffer_", "L → Rat → B"),
+                      ("bounds_of", "B → Rat × Rat × Rat × Rat"), ("intersects", "B → M → Bool"), ("crop_", "B → M → List L"), ("crop_is_lines", "B → M → Bool"),
+                      ("interp", "L → Rat → Rat × Rat"), ("slen", "L → Rat"), ("seg_len", "Rat × Rat → Rat × Rat → Rat"), ("isclose", "Rat → Rat → Bool"),
+                      ("seg_within", "Rat × Rat → Rat × Rat → B → Bool")],
+        slice_from="if multilinestring.is_empty", default_num="Rat", join="tuple"))
+    return "\n".join(out)
+
+
 def b_determine_intersect(S):
     """`determine_intersect`: which ordered pair of sets an X/Y node between two sets is recorded under, or ValueError"""
     fn = find_func(ast.parse(S[REL]), "determine_intersect")
@@ -1676,6 +1744,7 @@ ITEMS: List[Item] = [
     Item("ValidationPass", TVAL, ["C09", "C13"], b_validation_pass),
     Item("UnderlapValidator", TVALS, ["C10", "C13"], b_underlap_validator),
     Item("ValidationUtils", TVU, ["C10", "C16"], b_validation_utils),
+    Item("Stacking", TVU, ["C10"], b_stacking, extra_modules=[GENERAL]),
     Item("AreaValidator", TVALS, ["C10"], b_area_validator),
     Item("ValidationDefaults", TVAL, ["C10", "C03", "C16"], b_validation_defaults),
     Item("CacheDecorated", GENERAL, ["C17"], b_cache_decorated, extra_modules=[m for m in ALL_MODULES if m != GENERAL]),
